@@ -78,6 +78,17 @@ def simplify_val(v):
     return ("opaque", repr(v))
 
 
+def _mentions(x, local):
+    """does the rvalue / operand JSON mention `local` as the base of a place?"""
+    if isinstance(x, dict):
+        if "l" in x and "proj" in x and x["l"] == local:
+            return True
+        return any(_mentions(v, local) for v in x.values())
+    if isinstance(x, list):
+        return any(_mentions(v, local) for v in x)
+    return False
+
+
 class Body:
     def __init__(self, facts, key, j, ssa=True):
         self.facts = facts
@@ -482,7 +493,79 @@ class Body:
         else:
             path = ("indirect", self.resolve_operand(ce["indirect"], st))
         args = tuple(self.resolve_operand(a, st) for a in t["args"])
+        if ce.get("item") == "next" and len(args) == 1:
+            pos = self.cursor_positions().get(bb)
+            if pos is not None:
+                # the k-th read of a case-mapping iterator that is only ever read in a fixed order: a pure function of
+                # the mapped character and k
+                args = (("nth", self._resolve_local(pos[0], st), pos[1]),)
         return ("call", path, args, bb)
+
+    CURSOR_SOURCES = ("std::char::methods::<impl char>::to_lowercase", "std::char::methods::<impl char>::to_uppercase")
+
+    def cursor_positions(self):
+        """{block of a `next` call: (iterator local, k)} for iterator locals that are created once from a char case
+        mapping and then only advanced by `next` calls which dominance orders totally, outside loops: the k-th of them
+        always yields element k of the mapping."""
+        if "_cursor_pos" in self.__dict__:
+            return self._cursor_pos
+        out = {}
+        self._cursor_pos = out
+        in_loop = set()
+        for h, blk in self.loops().items():
+            in_loop |= set(blk)
+        for L, ds in self.defs().items():
+            ds = [d for d in ds if not self.is_cleanup(d[0])]
+            if len(ds) != 1 or ds[0][2] != "call" or ds[0][0] in in_loop:
+                continue
+            if callee_name(ds[0][3]["callee"]) not in self.CURSOR_SOURCES if "path" in ds[0][3]["callee"] else True:
+                continue
+            nexts = []
+            ok = True
+            for b, bl in enumerate(self.blocks):
+                if bl["cleanup"] or bl.get("dead"):
+                    continue
+                borrows = set()
+                for st_ in bl["stmts"]:
+                    if st_.get("s") != "assign":
+                        if st_.get("s") == "setdiscr" and st_["place"]["l"] == L:
+                            ok = False
+                        continue
+                    rv = st_["rv"]
+                    if st_["place"]["l"] == L:
+                        ok = False
+                    elif rv["r"] == "ref" and rv["place"]["l"] == L:
+                        if rv["bk"] == "mut" and not rv["place"]["proj"] and not st_["place"]["proj"]:
+                            borrows.add(st_["place"]["l"])
+                        else:
+                            ok = False
+                    elif _mentions(rv, L):
+                        ok = False
+                t = bl["term"]
+                if t["t"] == "call":
+                    uses = [a for a in t["args"] if a.get("o") in ("copy", "move") and a["place"]["l"] in borrows]
+                    direct = [a for a in t["args"] if a.get("o") in ("copy", "move") and a["place"]["l"] == L]
+                    if direct or (t["dest"]["l"] == L and b != ds[0][0]):
+                        ok = False
+                    if uses:
+                        if t["callee"].get("item") == "next" and len(t["args"]) == 1 and b not in in_loop:
+                            nexts.append(b)
+                        else:
+                            ok = False
+                    elif borrows:
+                        ok = False
+                elif borrows:
+                    ok = False
+                elif t["t"] == "switch" and t["discr"].get("place", {}).get("l") == L:
+                    ok = False
+            if not ok or not nexts:
+                continue
+            # total order by dominance
+            nexts.sort(key=lambda b: len(self.dominators().get(b, ())))
+            if all(self.dominates(nexts[i], nexts[i + 1]) for i in range(len(nexts) - 1)):
+                for k, b in enumerate(nexts):
+                    out[b] = (L, k)
+        return out
 
     def call_term(self, bb):
         return self._call_term(bb, self.term(bb))
